@@ -778,6 +778,7 @@ impl<'p, 's, M: Matcher, W: io::Write> Sink for JSONSink<'p, 's, M, W> {
         self.match_count = 0;
         self.after_context_remaining = 0;
         self.binary_byte_offset = None;
+        self.begin_printed = false;
         if self.json.config.max_matches == Some(0) {
             return Ok(false);
         }
